@@ -103,7 +103,7 @@ def compare(case, obs):
     executed = any(e[0] == 'execute' and e[3] == 'ok' for e in case['log'])
     if executed != (obs['atc'] is not None):
         return 'AtcOutcomeIffExecuted'
-    if case['mode'] == 'act' and executed and obs.get('atc_out') != 'ATC-STDOUT':
+    if case['mode'] == 'act' and executed and obs.get('atc_out') != 'atc-out\n':
         return 'ActModePassThrough'
     return None
 
